@@ -115,6 +115,25 @@ def first_diff(a, b):
     return k, ctx(la), ctx(lb)
 
 
+def builtin_rng_independence(flags):
+    """harness/c10_builtin_rng_independent.cpp: instances using the built-in generator behave identically whatever
+    other instances of the process do, wherever they live. Returns (status, [messages])."""
+    src = os.path.join(V.HARNESS, 'c10_builtin_rng_independent.cpp')
+    if not os.path.exists(src):
+        return 'unavailable', ['harness/c10_builtin_rng_independent.cpp not installed']
+    exe, err, dt, cached = V.build_cxx(src, flags, 'c10i')
+    if exe is None:
+        return 'broken', ['independence harness does not compile against the current header: ' + err[-500:]]
+    env = dict(os.environ); env['ASAN_OPTIONS'] = 'detect_leaks=0'
+    st, out, err = V.sh([exe], timeout=120, env=env)
+    diffs = [l for l in out.splitlines() if l.startswith('C10-RNG-DIFF')]
+    if st != 0:
+        return 'crash', ['independence harness died with status %d: %s' % (st, (err or out)[-600:])]
+    if diffs:
+        return 'diff', diffs
+    return ('ok', [out.strip()[:200]]) if 'C10-RNG-OK' in out else ('broken', ['independence harness printed nothing: ' + (out + err)[-300:]])
+
+
 def witness_f4():
     """Build and run the ASan witness of F4. Returns (status, text): 'uaf' | 'behaviour' | 'ok' | 'unavailable'."""
     src = os.path.join(V.HARNESS, 'c10_witness_copy_rng.cpp')
@@ -249,6 +268,17 @@ def run(tier, seed):
                             replay=hdr + '\nenv ' + json.dumps(env) + '\n--- original pass\n' + '\n'.join(a[max(0, j - 5):j + 2]) +
                                    '\n--- copy pass\n' + '\n'.join(b[max(0, j - 5):j + 2])))
                         break
+        ist, imsgs = builtin_rng_independence(V.SAN_FLAGS if tier != 'quick' else ['-O1'])
+        if ist == 'diff':
+            for m in imsgs[:3]:
+                res['rejections'].append(dict(tag='builtin-rng-shared', what='instances with the built-in generator do not behave '
+                                              'identically when driven identically: ' + m[:400],
+                                              replay='g++ -std=c++14 -I/repo/include harness/c10_builtin_rng_independent.cpp -o w && ./w\n' + '\n'.join(imsgs)))
+        elif ist == 'crash':
+            res['c11_rejections'].append(dict(tag='crash', what=imsgs[0], replay=imsgs[0]))
+            res['rejections'].append(dict(tag='crash', what=imsgs[0], replay=imsgs[0]))
+        elif ist == 'broken':
+            res['broken'].append(imsgs[0])
         wst, wtext = witness_f4()
         if wst == 'uaf':
             res['rejections'].append(dict(tag='copy-dangling-generator', what=wtext,
@@ -267,7 +297,7 @@ def run(tier, seed):
         res['alloc'] = dict(inside_api=alloc_in, by_harness=alloc_out)
         res['coverage'] = dict(
             programs=len(plan), runs=len(jobs), transcripts_compared=n_cmp, copy_runs=n_copy, evaluations=n_cmp + n_copy_scn,
-            distinct_nontrivial=n_cmp + n_copy_scn, copy_scenarios=n_copy_scn, fills=FILLS, offsets=offsets, f4_witness=wst,
+            distinct_nontrivial=n_cmp + n_copy_scn, copy_scenarios=n_copy_scn, fills=FILLS, offsets=offsets, f4_witness=wst, builtin_rng_independence=ist,
             allocations_inside_api=alloc_in, allocations_by_harness=alloc_out, traces_validated_against_impl=n_cmp,
             shapes=[S.to_sexpr(s) for s in shapes],
             rule='evaluation = one whole-transcript comparison (same binary, different storage fill/offset/process) or one '
